@@ -26,7 +26,7 @@ TraceLog == ndJsonDeserialize(IOEnv.TRACE)
 VARIABLES l, base, cmp, obs
 tvars == <<l, base, cmp, obs>>
 
-Nil == [id |-> "", role |-> "none", op |-> [kind |-> "query", fed |-> <<>>, sel |-> <<>>],
+Nil == [id |-> "", role |-> "none", op |-> [kind |-> "query", dv |-> "", fed |-> <<>>, sel |-> <<>>],
         resp |-> JObj(<<"data">>, <<JObj(<<>>, <<>>)>>)]
 Obs(line) == [id |-> line.id, role |-> line.role, op |-> line.op, resp |-> line.resp]
 
